@@ -45,9 +45,6 @@ def children(node):
             out.append((f, v))
         elif isinstance(v, tuple) and v and all(is_node(i) for i in v):
             out.append((f, v))
-        elif isinstance(v, tuple) and not v:
-            # an empty tuple in a node-list position is visited as an (empty) list
-            out.append((f, v))
 
     def start(item):
         v = item[1]
